@@ -178,6 +178,9 @@ package vm
 //@   ensures[main_reset;C08,C19,C09] vm.main.ip == len(*vm.CR.CS) && field[int](vm.main.m, "sp") == 0 && len(field[[]int](vm.main.m, "fp")) == 0 && len(field[[]memory.Frame](vm.main.m, "closure")) == 0
 //@   ensures[no_contexts;C08,C09] forall k uint64 :: !imhas(vm.main.children, k)
 //@   ensures[error_kept;C08,C19] result1 == err
+// C19: in the listing around the failing instruction, the marked line (with the operand values) is the failing instruction's and no other.
+//@   atcall fmt.Printf("--> with (callee_a []any) requires[marker_on_the_failing_instruction;C19] i + start == ip
+//@   atcall fmt.Printf("    %d with (callee_a []any) requires[no_marker_elsewhere;C19] i + start != ip
 //@   loop 0 invariant -1 <= rangeindex && rangeindex < len(values)
 //@   loop 1 invariant -1 <= rangeindex__2 && rangeindex__2 < end - start
 //@   loop 2 invariant true
